@@ -128,6 +128,8 @@ pub struct Profile {
     pub low_dosc_start: bool,
     /// mainnet histories begin with a jump into the window between TIP-902 (180 000) and TIP-906 (830 000)
     pub start_in_legacy_window: bool,
+    /// a quarter of the mutated transactions carry an extra covenant of huge or saturated weight
+    pub heavy_bias: bool,
 }
 
 impl Profile {
@@ -154,6 +156,7 @@ impl Profile {
             seed_funds: false,
             low_dosc_start: false,
             start_in_legacy_window: false,
+            heavy_bias: false,
         }
     }
 }
@@ -336,7 +339,7 @@ pub struct TxMeta {
     pub pool: Option<String>,
 }
 
-pub const MUTATIONS: [&str; 19] = [
+pub const MUTATIONS: [&str; 20] = [
     "value+1",
     "value-1",
     "repeat-input",
@@ -356,6 +359,7 @@ pub const MUTATIONS: [&str; 19] = [
     "destroy-output",
     "input-taken-by-another-tx-of-the-batch",
     "255-maximal-outputs",
+    "extra-heavy-covenant",
 ];
 
 fn split(total: u128, weights: &[u8]) -> Vec<u128> {
@@ -536,7 +540,7 @@ fn settle_fee(tx: &mut Transaction, mel_in: u128, fixed_mel: u128, mel_outs: &[(
             tx.outputs[*idx].value = CoinValue((*v).min(MAX_COINVAL));
         }
         tx.fee = CoinValue(fee.min(MAX_COINVAL));
-        let min = tx.base_fee(mult, 0, melvm::covenant_weight_from_bytes).0;
+        let min = refstf::min_fee(tx, mult);
         let want = min.saturating_add(tip);
         if mel_outs.is_empty() {
             // no MEL output to absorb change: everything left is fee
@@ -788,7 +792,7 @@ impl<'a> Builder<'a> {
         if self.p.grandfathered_faucet && tp.amount % 8 == 3 {
             // the one historical mainnet faucet the code still lets through (its body is in the repository's tests)
             let tx = grandfathered_faucet();
-            let valid = tx.fee.0 >= tx.base_fee(self.mult, 0, melvm::covenant_weight_from_bytes).0;
+            let valid = tx.fee.0 >= refstf::min_fee(&tx, self.mult);
             return Some(Built { tx, inputs: vec![], valid, spelling: None, pool: None });
         }
         let mut tx = Transaction::new(TxKind::Faucet);
@@ -809,7 +813,7 @@ impl<'a> Builder<'a> {
             2 => 20_000_000_000,
             _ => 1u128 << 70,
         });
-        let valid = self.w.net != NetID::Mainnet && tx.fee.0 >= tx.base_fee(self.mult, 0, melvm::covenant_weight_from_bytes).0;
+        let valid = self.w.net != NetID::Mainnet && tx.fee.0 >= refstf::min_fee(&tx, self.mult);
         Some(Built { tx, inputs: vec![], valid, spelling: None, pool: None })
     }
 
@@ -1073,7 +1077,7 @@ impl<'a> Builder<'a> {
 
     fn mutate(&mut self, mut b: Built, tp: &TxPlan) -> (Built, Option<&'static str>, bool) {
         let m = tp.mparam as usize % MUTATIONS.len();
-        let name = MUTATIONS[m];
+        let name = if self.p.heavy_bias && tp.mutation % 4 == 1 { "extra-heavy-covenant" } else { MUTATIONS[m] };
         let j = (tp.mparam >> 8) as usize;
         let mut dup = false;
         let mut resign = true;
@@ -1171,10 +1175,10 @@ impl<'a> Builder<'a> {
                 let mel = b.tx.outputs.iter().position(|o| o.denom == Denom::Mel);
                 match mel {
                     Some(i) if b.tx.fee.0 > 0 && b.tx.outputs[i].value.0 < MAX_COINVAL => {
-                        let min = b.tx.base_fee(self.mult, 0, melvm::covenant_weight_from_bytes).0;
+                        let min = refstf::min_fee(&b.tx, self.mult);
                         b.tx.fee = CoinValue(b.tx.fee.0 - 1);
                         b.tx.outputs[i].value = CoinValue(b.tx.outputs[i].value.0 + 1);
-                        let min2 = b.tx.base_fee(self.mult, 0, melvm::covenant_weight_from_bytes).0;
+                        let min2 = refstf::min_fee(&b.tx, self.mult);
                         still_valid = b.valid && b.tx.fee.0 >= min2.max(min);
                         if b.tx.fee.0 >= min2 && b.tx.fee.0 < min {
                             // weight moved with the re-encoding; treat as not valid-by-construction
@@ -1221,6 +1225,25 @@ impl<'a> Builder<'a> {
                     return (b, None, false);
                 }
                 b.tx.inputs.push(pool[j % pool.len()]);
+            }
+            "extra-heavy-covenant" => {
+                // an unused covenant whose weight is huge or saturates (nested 65535-iteration loops): it only has to be
+                // carried, not run; the fee is raised to cover it when the inputs allow
+                let depth = 3 + j % 7;
+                let mut ops: Vec<crate::refvm::ROp> = (0..depth).map(|i| crate::refvm::ROp::Loop(65535, (depth - i) as u16)).collect();
+                ops.push(crate::refvm::ROp::Noop);
+                b.tx.covenants.push(crate::refvm::encode(&ops).unwrap().into());
+                let min = refstf::min_fee(&b.tx, self.mult);
+                let mel_out = b.tx.outputs.iter().position(|o| o.denom == Denom::Mel && o.value.0 > 0);
+                still_valid = false;
+                if let Some(i) = mel_out {
+                    let have = b.tx.outputs[i].value.0 + b.tx.fee.0;
+                    if min <= MAX_COINVAL && have >= min && b.valid {
+                        b.tx.outputs[i].value = CoinValue(have - min);
+                        b.tx.fee = CoinValue(min);
+                        still_valid = refstf::min_fee(&b.tx, self.mult) <= min;
+                    }
+                }
             }
             "255-maximal-outputs" => {
                 // 255 outputs of the maximum coin value in one denomination plus the maximum fee: the declared total
@@ -1289,12 +1312,12 @@ impl<'a> Builder<'a> {
         let meta = TxMeta {
             kind: kind_name.to_string(),
             mutation,
-            valid_by_construction: b.valid && (mutation.is_none() || mutation == Some("destroy-output") || mutation == Some("fee-1")),
+            valid_by_construction: b.valid && (mutation.is_none() || mutation == Some("destroy-output") || mutation == Some("fee-1") || mutation == Some("extra-heavy-covenant")),
             spends_batch_output: spends_batch,
             spelling: b.spelling,
             pool: b.pool.map(|k| format!("{}", k)),
         };
-        if mutation.is_none() || mutation == Some("destroy-output") {
+        if mutation.is_none() || mutation == Some("destroy-output") || (mutation == Some("extra-heavy-covenant") && b.valid) {
             self.after(&b);
             self.batch_spent.extend(b.tx.inputs.iter().copied());
         }
